@@ -166,6 +166,19 @@ def models(rec):
         em = getattr(chi_sym, cls)()
         run_entry(rec, cls, ['chi._error_models.%s.sample' % cls], lambda sd, em=em, npar=npar: em.sample([pos('s%d' % k) for k in range(npar)], mo, n_samples=2, seed=sd),
                   lambda kind, cls=cls, npar=npar: native_repeat(lambda sd: getattr(real, cls)().sample([0.7] * npar, [1.0, 2.0], n_samples=2, seed=sd)))
+    # reduced error models: nothing fixed (user-supplied wrapper, or everything released again) and one parameter fixed
+    for label, fix in (('nothing fixed', None), ('released', 'released'), ('Sigma rel. fixed', 'fixed')):
+        def mk_red(c_, fix=fix):
+            r = c_.ReducedErrorModel(c_.ConstantAndMultiplicativeGaussianErrorModel())
+            if fix is not None:
+                r.fix_parameters({'Sigma rel.': 0.2})
+            if fix == 'released':
+                r.fix_parameters({'Sigma rel.': None})
+            return r
+        npar = 1 if fix == 'fixed' else 2
+        run_entry(rec, 'ReducedErrorModel(%s)' % label, ['chi._error_models.ReducedErrorModel.sample'],
+                  lambda sd, mk_red=mk_red, npar=npar: mk_red(chi_sym).sample([pos('s%d' % k) for k in range(npar)], mo, n_samples=2, seed=sd),
+                  lambda kind, mk_red=mk_red, npar=npar: native_repeat(lambda sd: mk_red(real).sample([0.7] * npar, [1.0, 2.0], n_samples=2, seed=sd)))
     gpar = np.array([pos('mu0'), pos('mu1'), pos('sd0'), pos('sd1')], dtype=object)
     pops = {
         'GaussianModel': (lambda: chi_sym.GaussianModel(n_dim=2), gpar, lambda: real.GaussianModel(n_dim=2), [0.5, 0.7, 1.0, 1.2]),
